@@ -25,6 +25,7 @@ ASSUMPTIONS = ['py_stringmatching tokenizers are trusted (fresh instance = refer
 SHARD_TIMEOUT = {'quick': 600, 'thorough': 3600}
 
 MEASURES3 = ('JACCARD', 'COSINE', 'DICE')
+MEASURES4 = MEASURES3 + ('OVERLAP_COEFFICIENT',)
 DECIDE = {'complete'}
 
 ANCHORS = {
@@ -73,6 +74,13 @@ def plan(tier, seed):
                    'seed': seed * 1000 + 4})
     shards.append({'name': 'seq', 'kind': 'seq', 'n': 250 if tier == 'quick' else 3000,
                    'seed': seed * 1000 + 6})
+    w4 = gen.exact_score_plan(random.Random(seed * 1000 + 44), MEASURES4,
+                              100 if tier == 'quick' else 2500)
+    nw4 = 3 if tier == 'quick' else 8
+    for i in range(nw4):
+        shards.append({'name': 'w4_%d' % i, 'kind': 'w4', 'combos': w4[i::nw4], 'seed': seed * 1000 + 50 + i})
+    shards.append({'name': 'huge', 'kind': 'huge', 'sizes': [300, 33000, 66000] if tier == 'quick' else
+                   [260, 300, 32770, 40000, 65540, 70000, 140000]})
     shards.append({'name': 'formula', 'kind': 'formula', 'nmax': 250 if tier == 'quick' else 1000,
                    'seed': seed * 1000 + 3})
     return shards
@@ -118,6 +126,19 @@ def materialise(case):
         return {'api': T.MEASURE_JOIN[case['measure']], 'ltable': L, 'rtable': R, 'l_key': 'id',
                 'r_key': 'id', 'l_attr': 's', 'r_attr': 's', 'tok': {'kind': 'ws', 'return_set': True},
                 'threshold': case['threshold'], 'comp_op': case.get('comp_op', '>='), 'n_jobs': 1}
+    if g == 'huge':
+        L, R = gen.huge_tables(case['n'])
+        return {'api': T.MEASURE_JOIN[case['measure']], 'ltable': L, 'rtable': R, 'l_key': 'id',
+                'r_key': 'id', 'l_attr': 's', 'r_attr': 's', 'tok': {'kind': 'ws', 'return_set': True},
+                'threshold': case['threshold'], 'comp_op': case.get('comp_op', '>='),
+                'n_jobs': case.get('n_jobs', 1)}
+    if g == 'w4':
+        rng = random.Random(case['seed'])
+        L, R, groups = gen.exact_score_tables(case['measure'], case['threshold'], rng)
+        return {'api': T.MEASURE_JOIN[case['measure']], 'ltable': L, 'rtable': R, 'l_key': 'id',
+                'r_key': 'id', 'l_attr': 's', 'r_attr': 's', 'tok': {'kind': 'ws', 'return_set': True},
+                'threshold': case['threshold'], 'comp_op': case.get('comp_op', '>='),
+                'n_jobs': case.get('n_jobs', 1)}
     if g == 'w3':
         rng = random.Random(case['seed'])
         return gen.random_join_call(rng)
@@ -236,6 +257,28 @@ def run_shard(shard, rec):
                             'comp_op': call['comp_op'], 'tok': call['tok'],
                             'left_values': T.column(call['ltable'], 'lattr')[:5],
                             'right_values': T.column(call['rtable'], 'rattr')[:5]}, limit=1)
+    elif kind == 'huge':
+        for x, n in enumerate(shard['sizes']):
+            for y, (m, t) in enumerate([('JACCARD', 0.9), ('COSINE', 0.95), ('DICE', 0.5),
+                                        ('OVERLAP_COEFFICIENT', 0.99), ('OVERLAP', n - 10), ('JACCARD', 0.3)]):
+                case = {'gen': 'huge', 'n': n, 'measure': m, 'threshold': t, 'n_jobs': 1 + (x + y) % 2}
+                st = run_case(case, rec, ssj)
+                rec.case(sig=('huge', n, m, t), nontrivial=bool(st and st.get('required')))
+                rec.count('huge_cases')
+        rec.sample({'workload': 'HUGE', 'sizes': shard['sizes'], 'note': 'one pair of records with n '
+                    'tokens sharing all but 3, beyond 2**8 / 2**15 / 2**16 tokens'}, limit=1)
+    elif kind == 'w4':
+        for i, (m, t, op) in enumerate(shard['combos']):
+            case = {'gen': 'w4', 'measure': m, 'threshold': t, 'comp_op': op,
+                    'seed': shard['seed'] * 100000 + i, 'n_jobs': 1 if i % 6 else 2}
+            st = run_case(case, rec, ssj)
+            rec.case(sig=('w4', m, t, op), nontrivial=bool(st and st.get('required')))
+            rec.count('w4_exact_score_thresholds')
+            if st and st.get('required'):
+                rec.count('w4_required_pairs', st.get('required'))
+        rec.sample({'workload': 'W4', 'note': 'thresholds that are the exact double-precision score of '
+                    'pairs of sets with up to 64 tokens; the table holds those pairs and their '
+                    'neighbours with one shared token fewer / more', 'last_case': case}, limit=1)
     elif kind == 'seq':
         from rv.checks import seq
         for i in range(shard['n']):
